@@ -18,6 +18,7 @@ HELP = "zeep-lib/src/model/helpers.rs"
 
 # (property, rule, file, old, new, note)
 MUTANTS = [
+    ("C11", "R1", READER, "        for child in doc.root().children() {\n            Self::read(child, files, &mut rust_doc)?;\n        }\n\n        Ok(rust_doc)\n    }\n\n    fn read<'n>", "        for child in doc.root().children() {\n            Self::read(child, files, &mut rust_doc)?;\n        }\n        file.processed.store(false, std::sync::atomic::Ordering::SeqCst);\n\n        Ok(rust_doc)\n    }\n\n    fn read<'n>", "processed flag handed back when a file is done (in-progress guard only)"),
     ("C06", "R1", H, "value < i128::from(min_inclusive)", "value <= i128::from(min_inclusive)", "minInclusive rejects the bound"),
     ("C06", "R1", H, "i128::from(max_exclusive) <= value", "i128::from(max_exclusive) < value", "maxExclusive accepts the bound"),
     ("C06", "R1", H, "if s_len < min_length", "if s_len <= min_length", "minLength off by one"),
@@ -100,6 +101,7 @@ MUTANTS = [
 
 # (file, old, new, note) — behaviour-preserving; every check must stay silent
 BENIGN = [
+    (READER, '        if file.processed.load(std::sync::atomic::Ordering::SeqCst) {\n            let rust_doc = RustDocument::empty();\n            return Ok(rust_doc);\n        }\n\n        let xml = &file.xml;\n        let doc = roxmltree::Document::parse(xml)\n            .map_err(|e| WriterError::new(format!("Unable to parse file {file_name}: {e}")))?;\n        let mut rust_doc = RustDocument::init(&doc);\n\n        // mark the file before its imports are followed, so that import cycles end here\n        file.processed.store(true, std::sync::atomic::Ordering::SeqCst);\n', '        // test and mark in one step, before the imports are followed, so that import cycles end here\n        if file.processed.swap(true, std::sync::atomic::Ordering::SeqCst) {\n            let rust_doc = RustDocument::empty();\n            return Ok(rust_doc);\n        }\n\n        let xml = &file.xml;\n        let doc = roxmltree::Document::parse(xml)\n            .map_err(|e| WriterError::new(format!("Unable to parse file {file_name}: {e}")))?;\n        let mut rust_doc = RustDocument::init(&doc);\n', "processed flag tested and set with one swap(true)"),
     (H, "        response.error_for_status_ref()?;\n        let response_body = response.text().await?;\n        let response = yaserde::de::from_str(&response_body).map_err(SoapError::YaserdeError)?;\n        Ok(response)\n    }\n}",
      "        ensure_success(&response)?;\n        let response_body = response.text().await?;\n        let response = yaserde::de::from_str(&response_body).map_err(SoapError::YaserdeError)?;\n        Ok(response)\n    }\n\n    fn ensure_success(response: &reqwest::Response) -> SoapResult<()> {\n        response.error_for_status_ref()?;\n        Ok(())\n    }\n}",
      "extract the status check into a private fn of the helper module"),
